@@ -661,7 +661,7 @@ func runC07(c *fw.Ctx) {
 
 	// (b) exhaustive enumeration over {Add,Push,Pop,PopLast} up to length L
 	// for preallocated sizes 0..4 (and the zero value).
-	L := c.Pick(8, 10)
+	L := c.Pick(8, 9)
 	total := 1
 	for i := 0; i < L; i++ {
 		total *= 4
